@@ -315,6 +315,81 @@ func c15ConcurrentBody(capacity uint32, peerCloses bool) func() {
 	}
 }
 
+// c15TogetherBody: both callers hold a used stream (set up on the default schedule); then they act at the same time:
+// both PutBack (capacity boundary of the pool ring), or one PutBack while the other GetStream. Afterwards the pool is
+// inspected (no more streams than its capacity, no stream twice) and emptied by two GetStream calls.
+func c15TogetherBody(capacity uint32, second string) func() {
+	return func() {
+		w := newC15World(capacity, 0)
+		vrt.Quiet(true)
+		for _, o := range []string{"Ga", "Ua", "Gb", "Ub"} {
+			if !w.op(o) {
+				vrt.Failf("harness", "setup operation %s not applicable", o)
+			}
+		}
+		if second == "get" {
+			w.op("Pb") // caller b starts without a stream, one stream idle in the pool
+		}
+		vrt.Quiet(false)
+		sa, sb := w.held[0], w.held[1]
+		ths := []*vrt.Thread{vrt.GoProc("caller0", 1, func() { w.held[0] = nil; w.sm.PutBack(sa) })}
+		if second == "put" {
+			ths = append(ths, vrt.GoProc("caller1", 1, func() { w.held[1] = nil; w.sm.PutBack(sb) }))
+		} else {
+			ths = append(ths, vrt.GoProc("caller1", 1, func() { w.get(1) }))
+		}
+		vrt.WaitThreads(ths...)
+		vrt.WaitIdle(vrt.Second)
+		if n := w.pooled(); n > int(capacity) {
+			vrt.Failf("pool-overflow", "the pool of capacity %d holds %d streams", capacity, n)
+		}
+		seen := map[*Stream]bool{}
+		for i := w.pool.head; i < w.pool.tail; i++ {
+			st := w.pool.streams[i%uint64(w.pool.capacity)]
+			if seen[st] {
+				vrt.Failf("double-handout", "stream %d sits in the pool twice", st.id)
+			}
+			seen[st] = true
+			if st == w.held[0] || st == w.held[1] {
+				vrt.Failf("double-handout", "stream %d is in the pool and held by a caller", st.id)
+			}
+		}
+		if a := w.p.c.GetActiveStreamCount(); !w.p.c.IsClosed() {
+			held := 0
+			for _, h := range w.held {
+				if h != nil {
+					held++
+				}
+			}
+			if a != held+w.pooled() {
+				vrt.Failf("known:pool-drops-without-close", "after concurrent %s: the session counts %d active streams, callers hold %d and the pool keeps %d", second, a, held, w.pooled())
+			}
+		}
+		kept := ""
+		for i := w.pool.head; i < w.pool.tail; i++ {
+			switch w.pool.streams[i%uint64(w.pool.capacity)] {
+			case sa:
+				kept += "a"
+			case sb:
+				kept += "b"
+			default:
+				kept += "?"
+			}
+		}
+		// empty the pool through the public API: no stream may come out twice
+		for c := 0; c < 2; c++ {
+			if w.held[c] == nil {
+				c := c
+				t := vrt.GoProc("get-after", 1, func() { w.get(c) })
+				vrt.WaitThreads(t)
+				vrt.WaitIdle(vrt.Second)
+			}
+		}
+		w.finish("concurrent " + second)
+		vrt.Outcome(fmt.Sprintf("kept=%s gets=%d", kept, w.gets))
+	}
+}
+
 func TestVerif_C15(t *testing.T) {
 	w := newWorker(t, "C15")
 	defer w.finish()
@@ -461,6 +536,9 @@ func TestVerif_C15(t *testing.T) {
 	}{
 		{"C15/concurrent-cap1", c15ConcurrentBody(1, false)},
 		{"C15/concurrent-cap2-peer-closes", c15ConcurrentBody(2, true)},
+		{"C15/putback-together-cap1", c15TogetherBody(1, "put")},
+		{"C15/putback-together-cap2", c15TogetherBody(2, "put")},
+		{"C15/putback-while-get-cap1", c15TogetherBody(1, "get")},
 	} {
 		o := vrt.Options{Bound: b, StepLimit: 50000, ShardI: w.shardI, ShardN: w.shardN}
 		w.explore(fmt.Sprintf("%s-bound%d", sc.name, b), nil, o, sc.body)
